@@ -81,10 +81,11 @@ def python_text(sc, ap, order_seed):
 
 def fortran_text(sc, ap, order_seed):
     import dagrt.codegen.fortran as f
-    from simdag.gen.fortran_subset import make_registry, user_type_map
+    from simdag.gen.fortran_subset import make_registry, module_preamble, user_type_map
     code = build_dag(sc, ap, order_seed)
     freg, _twins = make_registry(sc)
-    cg = f.CodeGenerator("m", function_registry=freg, user_type_map=user_type_map(sc))
+    cg = f.CodeGenerator("m", function_registry=freg, user_type_map=user_type_map(sc),
+                         module_preamble=module_preamble(sc))
     buf = io.StringIO()
     with contextlib.redirect_stdout(buf):
         return cg(code)
